@@ -528,6 +528,48 @@ def rule_e9(repo):
                             b.lineno, src(b, 40), wrong[0], 'added' if sign == 'plus' else 'subtracted'), '%s:%d' % (m.rel, b.lineno))
     return res
 
+def rule_e10(repo):
+    """The calculator writes powers of expressions with Python's `^` (Expr.__xor__).  Python gives `^` a *lower* precedence
+    than + - * /: `Const(1) + x ^ Const(2)` is (1 + x)^2.  So in the calculator's own code an operand of `^` that is a sum,
+    difference, product or quotient - or a negation on the left - must stand in parentheses of its own; without them the
+    code says something else than it reads (the derivative of acot was -1 / (1 + x)^2).  Decided on the syntax tree plus the
+    one thing the tree does not keep: whether the operand is enclosed in parentheses in the source text."""
+    res = RuleResult('C19.E10', 'an operand of ^ (power of expressions) that is a sum, product or quotient stands in its own parentheses', floor=12)
+    ARITH = (ast.Add, ast.Sub, ast.Mult, ast.Div, ast.FloorDiv, ast.Mod)
+
+    def parenthesised(lines, node):
+        line = lines[node.lineno - 1]
+        i = node.col_offset - 1
+        while i >= 0 and line[i] == ' ':
+            i -= 1
+        endline = lines[node.end_lineno - 1]
+        j = node.end_col_offset
+        while j < len(endline) and endline[j] == ' ':
+            j += 1
+        return i >= 0 and line[i] == '(' and j < len(endline) and endline[j] == ')'
+    for m in repo.source_modules():
+        if not m.rel.startswith('integral/') or '/tests/' in m.rel or '/examples/' in m.rel:
+            continue
+        lines = m.source.split('\n') if hasattr(m, 'source') else open(m.path).read().split('\n')
+        for f in m.all_funcs:
+            own = {id(x) for g in f.nested.values() for x in ast.walk(g.node)} if getattr(f, 'nested', None) else set()
+            pows = [n for n in ast.walk(f.node) if isinstance(n, ast.BinOp) and isinstance(n.op, ast.BitXor) and id(n) not in own]
+            if not pows:
+                continue
+            bad = []
+            for n in pows:
+                for side, op in (('left', n.left), ('right', n.right)):
+                    if isinstance(op, ast.BinOp) and isinstance(op.op, ARITH) and not parenthesised(lines, op):
+                        bad.append((n, side, op))
+                    if side == 'left' and isinstance(op, ast.UnaryOp) and isinstance(op.op, ast.USub) and not parenthesised(lines, op):
+                        bad.append((n, side, op))
+            res.add('%s :: %s :: powers' % (m.rel, f.qualname), not bad,
+                    '%d power(s), every compound operand in parentheses' % len(pows) if not bad else
+                    'line %d: `%s` - the %s operand of ^ is `%s` without parentheses of its own; Python reads the arithmetic first, so this is (%s) ^ .. '
+                    'and not what the text suggests' % (bad[0][0].lineno, src(bad[0][0], 60), bad[0][1], src(bad[0][2], 40), src(bad[0][2], 40)),
+                    '%s:%d' % (m.rel, (bad[0][0] if bad else pows[0]).lineno))
+    return res
+
 
 def rules(repo):
-    return [rule_e1(repo), rule_e2(repo), rule_e3(repo), rule_e4(repo), rule_e5(repo), rule_e6(repo), rule_e7(repo), rule_e8(repo), rule_e9(repo)]
+    return [rule_e1(repo), rule_e2(repo), rule_e3(repo), rule_e4(repo), rule_e5(repo), rule_e6(repo), rule_e7(repo), rule_e8(repo), rule_e9(repo), rule_e10(repo)]
